@@ -176,6 +176,13 @@ pub fn run(args: &Args) -> i32 {
                     }
                 }
                 // dry run
+                let begin = |out: &mut Out, k: i64| {
+                    out.ev(json!({"op": "begin", "case": format!("{}/k{}", group, k), "group": group, "alg": sel,
+                                  "threads": threads.map(|t| t as i64).unwrap_or(0), "k": k, "bits": inp.n.bits(), "n": dn(&inp.n),
+                                  "n_dec": inp.n.to_string()}));
+                    out.flush();
+                };
+                begin(&mut out, -1);
                 let (dry, n_polls) = one_run(&inp, sel, threads, usize::MAX, idle_s);
                 let (dev, _, _) = compact5(&dry.events);
                 // stage boundaries: poll indices at which the loop of the poll changes
@@ -210,6 +217,7 @@ pub fn run(args: &Args) -> i32 {
                             continue;
                         }
                     }
+                    begin(&mut out, k as i64);
                     let (r, np) = one_run(&inp, sel, threads, k, idle_s);
                     let hung = r.hung;
                     runs.push((k as i64, r, np));
@@ -232,6 +240,7 @@ pub fn run(args: &Args) -> i32 {
                     }
                     out.ev(e);
                 }
+                out.flush();
             }
         }
     }
